@@ -32,6 +32,8 @@ pub struct Model {
     pub floor: usize,
     /// for the generator: did the slot of an absent id hold edges/data when it died
     pub stale: Vec<bool>,
+    /// the edges a vertex had when it was collected (what a recycled slot may wrongly remember)
+    pub grave: Vec<Vec<(Lab, usize)>>,
     pub collections: u64,
     /// group slots were freed at least once (for non-triviality rules)
     pub groups_died: u64,
@@ -56,6 +58,7 @@ impl Model {
             returned: BTreeSet::new(),
             floor: 0,
             stale: vec![false; cap],
+            grave: vec![vec![]; cap],
             collections: 0,
             groups_died: 0,
         }
@@ -198,6 +201,7 @@ impl Model {
                 for m in members {
                     let dead = self.v[m].take().unwrap();
                     self.stale[m] = !dead.edges.is_empty() || dead.data.is_some();
+                    self.grave[m] = dead.edges.clone();
                     removed.push(m);
                 }
                 self.collections += removed.len() as u64;
